@@ -31,6 +31,10 @@ type Cmd struct {
 	Seqs   map[string][]bson.D
 	Failed bool
 	Fault  string
+	// Post holds, for an executed update command, the documents it wrote as they are stored
+	// afterwards (one per matched or upserted document, in statement order): what a reader of
+	// the collection sees, whatever form the update took (replacement, $set / $unset, ...).
+	Post []bson.D
 }
 
 // Key is "name coll".
@@ -442,6 +446,7 @@ func (s *Server) exec(c *Cmd) bson.D {
 						nMod++
 						s.colls[ns][j] = nd
 					}
+					c.Post = append(c.Post, clone(nd))
 					if m, _ := multi.(bool); !m {
 						break
 					}
@@ -464,6 +469,7 @@ func (s *Server) exec(c *Cmd) bson.D {
 					}
 					nd = applyUpdate(nd, u.(bson.D), true)
 					s.colls[ns] = append(s.colls[ns], nd)
+					c.Post = append(c.Post, clone(nd))
 					id, _ := get(nd, "_id")
 					upserted = append(upserted, bson.D{{"index", int32(i)}, {"_id", id}})
 					n++
@@ -702,6 +708,9 @@ func (s *Server) serve(c net.Conn, id int) {
 					}
 				}()
 				reply = s.exec(cmd)
+				if cmd.Post != nil && cmd.Seq < len(s.Log) {
+					s.Log[cmd.Seq].Post = cmd.Post
+				}
 			}()
 		}
 		if act.SeverAfter {
